@@ -62,6 +62,13 @@ def run_impl(case):
             obs['through_process'] = False
         after = set(path for path, _ in root.depth())
         obs['created'] = sorted(list(p) for p in after - before)
+        # the item syntax with a bare key is the path of that one key — whatever the key (the empty string included)
+        blank = here.create(('',), 7.0)
+        item = {}
+        for k, node in (('', blank), (case['target'][0], here.get_path((case['target'][0],)))):
+            got = here[k]
+            item[repr(k)] = [got is node, list(here.path_to(got))]
+        obs['item'] = item
         obs['target_path'] = list(other.path_for())
     except Exception as e:  # noqa
         obs['raised'] = f'{type(e).__name__}: {str(e)[:200]}'
@@ -84,4 +91,7 @@ def oracle(case, impl):
         return [f'connect: {who}: reading (port, var_a) through the process store does not give the target']
     if impl['created']:
         return [f'connect: {who}: stores {impl["created"]} were created']
+    for k, (same, path) in impl.get('item', {}).items():
+        if not same:
+            return [f'item-syntax: store[{k}] is the node at {path}, get_path(({k},)) is the child with that key']
     return []
